@@ -75,6 +75,71 @@ func (s *Sim) oracleOnHandOver(c *Client, rid string, f *Frame, r *CReq) {
 	s.accessOnHandOver(c, rid, f, r)
 }
 
+// oracleAfresh is C08.c: a subscribe or get request for a resource the
+// connection has nothing of - never held, no other request touching it in the
+// meantime - is evaluated afresh: an access request for it is sent to the
+// service after the client's request. (A Subscription object left behind by an
+// earlier failed request would answer from what it stored.)
+func (s *Sim) oracleAfresh(c *Client, r *CReq, f *Frame) {
+	if !r.Valid || c.Tainted != "" || c.CIdx < 0 || s.gwStopped {
+		return
+	}
+	if c.everHeld(r.RID) || c.Cache[r.RID] != nil || r.NAtSend > 0 {
+		return
+	}
+	if f.Error != nil && (f.Error.Code == "system.invalidRequest" || f.Error.Code == "system.methodNotFound" || f.Error.Code == "system.subjectTooLong") {
+		return
+	}
+	for _, o := range c.ReqL {
+		if o == r || o.Action == "version" {
+			continue
+		}
+		// another request alive at some moment of r's life
+		if o.Seq < f.Seq && (o.Resp == nil || o.Resp.Seq > r.Seq) {
+			if o.RID == r.RID || o.Action == "call" || o.Action == "auth" || o.Action == "new" {
+				return
+			}
+			// it may have brought the resource in as a reference
+			if o.Action == "subscribe" || o.Action == "get" {
+				return
+			}
+		}
+	}
+	name, query := splitRID(c.expandCID(r.RID))
+	// nor can the connection hold it as a reference of something else it asked
+	// for (the gateway may be loading a reference the client has not heard of
+	// yet): not reachable, in any state a service ever announced, from any other
+	// resource this connection has requested
+	var roots []string
+	for _, o := range c.ReqL {
+		if o != r && o.RID != "" && o.RID != r.RID {
+			roots = append(roots, c.expandCID(o.RID))
+		}
+	}
+	s.mu.Lock()
+	for _, q := range s.tr.reqs {
+		if q.CIdx == c.CIdx && strings.HasPrefix(q.Outcome, "rid:") {
+			roots = append(roots, q.Outcome[4:])
+		}
+	}
+	s.mu.Unlock()
+	if s.W.everReachable(roots, c.expandCID(r.RID)) {
+		return
+	}
+	s.stat("oracle.C08.c", 1)
+	s.mu.Lock()
+	found := false
+	for _, q := range s.tr.reqs {
+		if q.Type == "access" && q.CIdx == c.CIdx && q.Name == name && q.Query == query && q.Seq > r.Seq {
+			found = true
+		}
+	}
+	s.mu.Unlock()
+	if !found {
+		c.violate("C08", "c", "not-evaluated-afresh", "client %s: %s was answered (%s) without any access request for it being sent to the service, although the connection had nothing of that resource", c.Name, r.Method, trunc(f.Raw, 120))
+	}
+}
+
 // oracleUnsubscribe is C08.a: the verdict of an unsubscribe request against the
 // frame-driven counter model. n is the model's count before the response.
 func (s *Sim) oracleUnsubscribe(c *Client, r *CReq, f *Frame, n int) {
